@@ -82,9 +82,10 @@ Qed.
 
 (* ---- non-vacuity: a history of the instantiated model in which a proposal passes and is applied *)
 Definition demo_ops : list (ctx * cop) :=
-  [ (mkC 1000 5, OSubmit 0 (CRegistry 1 7)); (mkC 1000 5, OVote 0 1 1); (mkC 1000 5, OEndBlock);
-    (mkC 1300 6, OVote 0 1 3);     (* at the end time (not after it): accepted, replaces the yes vote *)
-    (mkC 1300 6, OVote 0 1 1);     (* ... and is replaced again *) (mkC 1300 6, OEndBlock); (mkC 1310 7, OEndBlock); (mkC 1310 8, OEndBlock) ].
+  [ (mkC (1000 * NS) 5, OSubmit 0 (CRegistry 1 7)); (mkC (1000 * NS) 5, OVote 0 1 1); (mkC (1000 * NS) 5, OEndBlock);
+    (mkC (1300 * NS - 1) 6, OEndBlock);               (* one nanosecond before the end: not finalised *)
+    (mkC (1300 * NS) 6, OVote 0 1 3);     (* at the end time (not after it): accepted, replaces the yes vote *)
+    (mkC (1300 * NS) 6, OVote 0 1 1);     (* ... and is replaced again *) (mkC (1300 * NS) 6, OEndBlock); (mkC (1310 * NS - 1) 7, OEndBlock); (mkC (1310 * NS) 7, OEndBlock); (mkC (1310 * NS) 8, OEndBlock) ].
 Definition demo_final : cstate := run world ccontent cext (c_params (mkF false true false) decide_q) demo_ops (init w_demo).
 
 Lemma demo_applied_once :
@@ -351,4 +352,57 @@ Definition pinned_writers : list string := [
 ]%string.
 
 Lemma lifecycle_writers_pinned : lifecycle_writers = pinned_writers.
+Proof. reflexivity. Qed.
+
+(* ================================================================ error handling of EVERY registered handler
+   The Apply method of each handler in app.go's proposal router (all modules), read on every run
+   (Gen/GovHandlers.v [handler_error_shapes]): an entry in a handler's list means that Apply can
+   report success after a failed step, which the router would commit as a partial application.
+   Pinned for the tree as it is: every handler is clean (1787bf6 repaired the durations handler, ef42471
+   the collective-remove handler); the one entry is a false alarm of the name-based detection
+   (keeper.SetExecutionFee returns nothing; a msg-server method of the same name returns an error).
+   The shapes of callees (keeper functions) are not followed. *)
+Definition pinned_handler_shapes : list (string * list string) := [
+  ("x/gov.ApplyWhitelistAccountPermissionProposalHandler", []);
+  ("x/gov.ApplyBlacklistAccountPermissionProposalHandler", []);
+  ("x/gov.ApplyRemoveWhitelistedAccountPermissionProposalHandler", []);
+  ("x/gov.ApplyRemoveBlacklistedAccountPermissionProposalHandler", []);
+  ("x/gov.ApplyAssignRoleToAccountProposalHandler", []);
+  ("x/gov.ApplyUnassignRoleFromAccountProposalHandler", []);
+  ("x/gov.ApplySetNetworkPropertyProposalHandler", []);
+  ("x/gov.ApplyUpsertDataRegistryProposalHandler", []);
+  ("x/gov.ApplySetPoorNetworkMessagesProposalHandler", []);
+  ("x/gov.ApplyResetWholeCouncilorRankProposalHandler", []);
+  ("x/gov.ApplyJailCouncilorProposalHandler", []);
+  ("x/gov.ApplySetExecutionFeesHandler", ["unchecked: a.keeper.SetExecutionFee"]);
+  ("x/tokens.ApplyUpsertTokenInfosProposalHandler", []);
+  ("x/tokens.ApplyWhiteBlackChangeProposalHandler", []);
+  ("x/staking.ApplyUnjailValidatorProposalHandler", []);
+  ("x/slashing.ApplyResetWholeValidatorRankProposalHandler", []);
+  ("x/slashing.ApplySlashValidatorProposalHandler", []);
+  ("x/gov.CreateRoleProposalHandler", []);
+  ("x/gov.ApplyRemoveRoleProposalHandler", []);
+  ("x/gov.ApplyWhitelistRolePermissionProposalHandler", []);
+  ("x/gov.ApplyBlacklistRolePermissionProposalHandler", []);
+  ("x/gov.ApplyRemoveWhitelistedRolePermissionProposalHandler", []);
+  ("x/gov.ApplyRemoveBlacklistedRolePermissionProposalHandler", []);
+  ("x/gov.SetProposalDurationsProposalHandler", []);
+  ("x/upgrade.ApplySoftwareUpgradeProposalHandler", []);
+  ("x/upgrade.ApplyCancelSoftwareUpgradeProposalHandler", []);
+  ("x/spending.ApplyUpdateSpendingPoolProposalHandler", []);
+  ("x/spending.ApplySpendingPoolDistributionProposalHandler", []);
+  ("x/spending.ApplySpendingPoolWithdrawProposalHandler", []);
+  ("x/ubi.ApplyUpsertUBIProposalHandler", []);
+  ("x/ubi.ApplyRemoveUBIProposalHandler", []);
+  ("x/basket.ApplyCreateBasketProposalHandler", []);
+  ("x/basket.ApplyEditBasketProposalHandler", []);
+  ("x/basket.ApplyBasketWithdrawSurplusProposalHandler", []);
+  ("x/collectives.ApplyCollectiveSendDonationProposalHandler", []);
+  ("x/collectives.ApplyCollectiveUpdateProposalHandler", []);
+  ("x/collectives.ApplyCollectiveRemoveProposalHandler", []);
+  ("x/layer2.ApplyJoinDappProposalHandler", []);
+  ("x/layer2.ApplyUpsertDappProposalHandler", [])
+]%string.
+
+Lemma handler_error_shapes_pinned : handler_error_shapes = pinned_handler_shapes.
 Proof. reflexivity. Qed.
